@@ -10,7 +10,8 @@
 (***************************************************************************)
 EXTENDS NoiseNames, TLC, Json
 
-CONSTANT PatSetN       \* patterns to enumerate
+CONSTANTS PatSetN,     \* patterns to enumerate
+          HfsN         \* FALSE: the 13 344 names of the default build; TRUE: the hfs names (hfs build of the crate)
 
 VARIABLE done
 Dhs     == {"25519", "P256"}
@@ -19,7 +20,7 @@ Row(p, ps, d, c, h) ==
   LET nm == NameOf(p, PskMods(ps), d, c, h) IN
   [name |-> nm, pat |-> p, psks |-> ps, dh |-> d, cipher |-> c, hash |-> h,
    publen |-> PubLen(d), initpad |-> Len(nm) <= HashLen(h), oneway |-> p \in OneWay,
-   nmsgs |-> NumMsgs(p)]
+   nmsgs |-> NumMsgs(p), hfs |-> FALSE]
 
 RoundTrip(p, ps, d, c, h) ==
   LET r == ParseName(NameOf(p, PskMods(ps), d, c, h)) IN
@@ -27,14 +28,35 @@ RoundTrip(p, ps, d, c, h) ==
   /\ { r.mods[i].n : i \in 1..Len(r.mods) } = ps
   /\ \A i \in 1..Len(r.mods) : r.mods[i].kind = "psk"
 
+(* hfs names: every interactive pattern, the hfs modifier before or after the psk modifiers, KEM Kyber1024 *)
+HRow(p, ps, first, d, c, h) ==
+  LET mods == IF first THEN <<"hfs">> \o PskMods(ps) ELSE PskMods(ps) \o <<"hfs">>
+      nm == NameOf(p, mods, d \o "+Kyber1024", c, h) IN
+  [name |-> nm, pat |-> p, psks |-> ps, dh |-> d, cipher |-> c, hash |-> h,
+   publen |-> PubLen(d), initpad |-> Len(nm) <= HashLen(h), oneway |-> FALSE,
+   nmsgs |-> NumMsgs(p), hfs |-> TRUE]
+HRoundTrip(row, p, ps, d, c, h) ==
+  LET r == ParseNameH(row.name, TRUE) IN
+  /\ r.ok /\ r.pat = p /\ r.dh = d /\ r.kem = "Kyber1024" /\ r.cipher = c /\ r.hash = h
+  /\ { r.mods[i].n : i \in { j \in 1..Len(r.mods) : r.mods[j].kind = "psk" } } = ps
+  /\ Cardinality({ j \in 1..Len(r.mods) : r.mods[j].kind = "hfs" }) = 1
+  /\ ~ParseName(row.name).ok              \* the default build must reject it
+
 Init == done = FALSE
 Next ==
   /\ ~done
   /\ done' = TRUE
-  /\ \A p \in PatSetN : \A ps \in SUBSET (0..NumMsgs(p)) :
-       \A d \in Dhs : \A c \in CipherNames : \A h \in HashNames :
-         /\ Assert(RoundTrip(p, ps, d, c, h), <<"grammar does not round-trip", p, ps, d, c, h>>)
-         /\ PrintT(<<"NAME", ToJson(Row(p, ps, d, c, h))>>)
+  /\ IF ~HfsN
+     THEN \A p \in PatSetN : \A ps \in SUBSET (0..NumMsgs(p)) :
+            \A d \in Dhs : \A c \in CipherNames : \A h \in HashNames :
+              /\ Assert(RoundTrip(p, ps, d, c, h), <<"grammar does not round-trip", p, ps, d, c, h>>)
+              /\ PrintT(<<"NAME", ToJson(Row(p, ps, d, c, h))>>)
+     ELSE \A p \in { q \in PatSetN : HfsApplies(q) } : \A ps \in SUBSET (0..NumMsgs(p)) :
+            \A first \in (IF ps = {} THEN {TRUE} ELSE BOOLEAN) :
+              \A d \in Dhs : \A c \in CipherNames : \A h \in HashNames :
+                LET row == HRow(p, ps, first, d, c, h) IN
+                /\ Assert(HRoundTrip(row, p, ps, d, c, h), <<"hfs grammar does not round-trip", row.name>>)
+                /\ PrintT(<<"NAME", ToJson(row)>>)
 Spec == Init /\ [][Next]_done
 TableOk == TableValid
 =============================================================================
